@@ -16,6 +16,7 @@ void harness(void) {
     /* the inputs the function reads, as validation leaves them */
     scs->static_config.logical_processors = (uint32_t)vin_range(0, 512); scs->static_config.target_socket = (int32_t)vin_range(-1, 1); scs->static_config.unpin = (uint32_t)vinbool();
     scs->static_config.hierarchical_levels = (uint32_t)vin_range(0, 5); scs->static_config.frame_rate = (uint32_t)vin_range(1, 240 << 16);
+    scs->static_config.intra_period_length = (int32_t)vin_range(-2, 1 << 30); scs->intra_period_length = scs->static_config.intra_period_length;
     scs->static_config.look_ahead_distance = (uint32_t)vin_range(0, 120); scs->static_config.super_block_size = vinbool() ? 128 : 64;
     scs->static_config.tile_rows = (int32_t)vin_range(0, 6); scs->static_config.tile_columns = (int32_t)vin_range(0, 4);
     scs->max_input_luma_width = (uint16_t)vin_range(64, 4096); scs->max_input_luma_height = (uint16_t)vin_range(64, 2160);
